@@ -422,15 +422,55 @@ pub fn run(ctx: &Ctx) -> i32 {
         &format!("{} hand-encoded packages: 4 file sets (1–3 header files incl. a %ghost file that is not archived, a symlink, an empty file) × every ordered selection of their entries as archive order × {{uncompressed, gzip}} × {{newc, newc with upper-case hexadecimal header fields, stripped entries with rpm's alignment bytes}}. Oracle: files() yields the archived entries in archive order, each under the metadata of the file of that name (of that index for stripped entries), bytes identical", fc.len()),
         b,
     );
-    if s1.acc.nontrivial == 0 || s2.acc.nontrivial == 0 {
+    // payloads around the sizes at which compressors change their behaviour (window sizes, block sizes): one at a time,
+    // they are big
+    let s3 = {
+        let mut acc = Acc::new();
+        let mut cases: Vec<(usize, usize, Comp)> = vec![(1, (1 << 27) + 4096, Comp::Zstd(1))];
+        if ctx.thorough() {
+            for total in [(1usize << 26) + 4096, (1 << 27) - 4096, (1 << 27) + 4096, (1 << 28) + 4096] {
+                for c in [Comp::None, Comp::Gzip(1), Comp::Zstd(3), Comp::Zstd(19), Comp::Xz(0)] {
+                    cases.push((1, total, c));
+                }
+            }
+            cases.push((3, (1 << 27) + 4096, Comp::Zstd(1)));
+            cases.push((3, (1 << 27) + 4096, Comp::Default));
+            cases.push((1, (1 << 30) + 4096, Comp::Zstd(1)));
+        }
+        for (k, (n_files, total, comp)) in cases.iter().enumerate() {
+            acc.evals += 1;
+            let mut spec = BuildSpec::minimal();
+            spec.name = format!("big-{}", k);
+            spec.compression = comp.clone();
+            for j in 0..*n_files {
+                spec.files.push(FileSpec::new(&format!("/big/part{}", j), Content::Text(total / n_files + j)));
+            }
+            let case = || json!({"files": n_files, "bytes_in_all": total, "compression": format!("{:?}", comp)});
+            match catch(|| spec.build_bytes(&env)) {
+                Err(p) => acc.viol(panic_violation("big-payloads", &p, case()).rank(k as u64)),
+                Ok(Err(e)) => acc.viol(Violation::new("big-payloads", format!("a valid configuration does not build: {}", e), case()).sig("clause", "build-fails").rank(k as u64)),
+                Ok(Ok((_, bytes))) => match parse_pkg(&bytes) {
+                    Ok(Ok(p)) => {
+                        acc.nontrivial += 1;
+                        acc.count(&format!("{:?}", comp.name().unwrap_or("none")));
+                        judge_built("big-payloads", &spec, &p, k as u64, &case, &mut acc);
+                        acc.sample(k as u64, case);
+                    }
+                    _ => acc.viol(Violation::new("big-payloads", "built package is not accepted by the parser", case()).sig("clause", "reparse").rank(k as u64)),
+                },
+            }
+        }
+        SubReport::new("big-payloads", "A", &format!("{} package(s) whose files add up to {}: built, written, parsed, iterated: the same oracle as for the small packages", cases.len(), if ctx.thorough() { "2^26, 2^27 ∓ 4096, 2^28 and 2^30 (+4096) bytes × {none, gzip 1, zstd 1 / 3 / 19 / default, xz 0}, in one file or three" } else { "2^27 + 4096 bytes (zstd 1, one file); the thorough tier walks sizes from 2^26 to 2^30 and five compressors" }), acc)
+    };
+    if s1.acc.nontrivial == 0 || s2.acc.nontrivial == 0 || s3.acc.nontrivial == 0 {
         crate::ctx::machinery("nothing judged: vacuous");
     }
     ctx.finish(
         "exploration",
-        vec![s1, s2],
+        vec![s1, s2, s3],
         &[
             "the stripped (large-file) layout is reached below 4 GiB through the verif-hooks feature; with > 4 GiB of real content it is not exercised",
-            "file sizes beyond 64 KiB (quick) / 5 MiB (thorough) and more than three files per package are not covered here",
+            "between 64 KiB (quick) / 5 MiB (thorough) and the big-payloads sizes only the listed sizes are covered",
             "flate2 / zstd / liblzma as used by the harness to compress foreign payloads",
         ],
         vec![],
